@@ -30,6 +30,8 @@ D1_ENDINGS = ['pass', 'fail', 'hard_setup', 'hard_before_assert', 'hard_assert',
 DISTURB = ['cd_root', 'cd_tmp', 'cd_newdir', 'env_set', 'env_set_act', 'env_unset', 'env_path', 'chmod_files',
            'chmod_tree', 'deep_tree', 'symlinks', 'tmp_files', 'cd_deleted']
 OUT_KINDS = ['empty', 'text', 'nonl', 'nonascii', 'large']
+# transformation of the action's output: name -> (syntax, function on bytes)
+ACT_TRS = [None, 'upper', 'trailer', 'trailer-sym', 'count']
 
 
 def cases(tier, seed):
@@ -67,12 +69,20 @@ def cases(tier, seed):
                                       ['cd_deleted'], ['cd_deleted', 'env_set'], ['env_unset', 'cd_deleted'])):
                 yield {'d': 1, 'ending': e, 'keep': keep, 'disturb': list(dist), 'out': OUT_KINDS[(i + len(e)) % 5],
                        'rc': (7 * len(e) + i) % 256, 'where': ['setup', 'before-assert', 'cleanup'][i % 3]}
+    # the action given with a transformation of its output: result/stdout holds the transformed output, result/stderr
+    # and result/exit-code those of the action (every kind of output, also none at all)
+    for tr in ACT_TRS[1:]:
+        for ok in OUT_KINDS:
+            for i, e in enumerate(('pass', 'fail', 'hard_cleanup')):
+                yield {'d': 1, 'ending': e, 'keep': (i + len(ok)) % 2 == 0, 'disturb': [], 'out': ok,
+                       'rc': (11 * len(ok) + 3 * i) % 256, 'where': 'setup', 'tr': tr}
     n1 = 1500 if tier == 'quick' else 25000
     for _ in range(n1):
         k = rng.randrange(0, 6)
         yield {'d': 1, 'ending': rng.choice(D1_ENDINGS), 'keep': rng.random() < 0.5,
                'disturb': rng.sample(DISTURB, k), 'out': rng.choice(OUT_KINDS), 'rc': rng.randrange(256),
-               'where': rng.choice(['setup', 'before-assert', 'assert', 'cleanup'])}
+               'where': rng.choice(['setup', 'before-assert', 'assert', 'cleanup']),
+               'tr': rng.choice(ACT_TRS) if rng.random() < 0.25 else None}
 
 
 # ================================================================================================ D2
@@ -282,6 +292,21 @@ def build_d1(case, marker_dir):
         err = 'err\n' if ok != 'empty' else ''
         act = '%s - %s' % (probe.PROBE, probe.ctrl(rc=rc, out=out, err=err))
         exp_out, exp_err = out.encode(), err.encode()
+    tr = case.get('tr')
+    if tr is not None and 'env_path' not in d and 'cd_deleted' not in d:
+        if tr == 'upper':
+            act += '\n  -transformed-by char-case -to-upper'
+            exp_out = exp_out.decode().upper().encode()
+        elif tr == 'trailer':
+            act += "\n  -transformed-by run % sh -c 'cat; echo TRAILER'"
+            exp_out = exp_out + b'TRAILER\n'
+        elif tr == 'trailer-sym':
+            L['setup'].insert(0, 'def program THE_ACTION = ' + act + "\n  -transformed-by run % sh -c 'cat; echo TRAILER'")
+            act = '@ THE_ACTION'
+            exp_out = exp_out + b'TRAILER\n'
+        elif tr == 'count':
+            act += "\n  -transformed-by run % sh -c 'wc -c | tr -d \" \"'"
+            exp_out = ('%d\n' % len(exp_out)).encode()
     conf = []
     good = 'exit-code == %d' % rc
     bad = 'exit-code == %d' % ((rc + 1) % 256)
